@@ -29,7 +29,7 @@ def run(run):
     with open(p, "w") as f:
         f.write("SPECIFICATION GenSpec\nCHECK_DEADLOCK FALSE\nCONSTANTS\n" + "".join("  %s = %d\n" % kv for kv in k.items()))
     cp = os.path.join(out, "cases.ndjson")
-    ncases = run.gen("gen", SPEC, "PolyOpsGen", p, cp, workers=1, timeout=3000)
+    ncases = run.gen("gen", SPEC, "PolyOpsGen", p, cp, workers=1, timeout=3000, require=["ta=Bounds", "tb=Bounds", "tb=PolygonFlat", "ta=PolygonHoleFirst", "sh=", "f2"])
     tr1 = os.path.join(out, "trace_replay.ndjson")
     run.drive(["c01", "replay", cp, tr1], timeout=3000)
     nrand = 800 if quick else 30000
